@@ -107,3 +107,37 @@ m("m03i", "C03", "sqllineage/core/holders.py",
   "                if len(read) > 0 and len(write) == 0:\n",
   "                if len(read) > 0 and len(write) == 0 and not any(g.in_degree[t] for t in read):\n",
   "source-only tag skipped for a table that already has incoming lineage")
+
+# ---------------------------------------------------------------- C04
+m("m04a", "C04", "sqllineage/runner.py",
+  "                        session.register_session_metadata(tgt_table, tgt_columns)\n",
+  "                        if len(stmt_holders) == 0:\n                            session.register_session_metadata(tgt_table, tgt_columns)\n",
+  "only the first statement teaches the session")
+m("m04b", "C04", "sqllineage/runner.py",
+  "                    tgt_table = next(iter(write))\n",
+  "                    tgt_table = next(iter(stmt_holder.read), None) or next(iter(write))\n",
+  "registers the columns against the first read table")
+m("m04c", "C04", "sqllineage/core/holders.py",
+  "                if g.has_edge(parent, src_col):\n",
+  "                if g.has_edge(parent, src_col) and not isinstance(parent, Table):\n",
+  "late resolution no longer finds the column of a table created by an earlier statement in the graph")
+m("m04d", "C04", "sqllineage/core/metadata_provider.py",
+  "        self._session_metadata[str(table)] = [c.raw_name for c in columns]\n",
+  "        self._session_metadata[table.raw_name] = [c.raw_name for c in columns]\n",
+  "session keyed by bare table name (lookups use the qualified name)")
+m("m04e", "C04", "sqllineage/core/holders.py",
+  "                node for node in target_columns if isinstance(node.parent, Table)\n            }\n",
+  "                node for node in target_columns if node.parent is not None\n            }\n",
+  "path leaves no longer restricted to table columns")
+m("m04f", "C04", "sqllineage/core/metadata_provider.py",
+  "        if (key := str(table)) in self._session_metadata:\n            cols = self._session_metadata[key]\n",
+  "        if (key := str(table)) in self._session_metadata and not self._get_table_columns(str(table.schema), table.raw_name, **kwargs):\n            cols = self._session_metadata[key]\n",
+  "session consulted only when the provider itself knows nothing (fine), but evaluated eagerly - extra provider traffic only")
+m("m04g", "C04", "sqllineage/core/holders.py",
+  "            g = nx.compose(g, holder.graph)\n            if holder.drop:\n",
+  "            g = nx.compose(holder.graph, g) if len(holder.write) > 1 else nx.compose(g, holder.graph)\n            if holder.drop:\n",
+  "benign-looking compose order change (no effect expected: equivalent mutant control)")
+m("m04h", "C04", "sqllineage/core/holders.py",
+  "                    if new_column in target_columns or src_col.raw_name == \"*\":\n                        continue\n",
+  "                    if new_column in target_columns or src_col.raw_name == \"*\":\n                        continue\n                    if len(target_columns) >= 2 and new_column.raw_name.endswith(\"_2\"):\n                        continue\n",
+  "wildcard expansion from session drops some columns")
